@@ -56,6 +56,23 @@ pub struct Plan {
     pub reinsert: u32,
     pub ops: Vec<DirOp>,
     pub query_seed: u64,
+    /// mode "deduper": the file-level deduper driven directly (in-xorb self-references, xorb cuts, late shards)
+    #[serde(default)]
+    pub dd: Option<DeduperPlan>,
+}
+
+#[derive(Clone, Debug, Serialize, Deserialize, PartialEq)]
+pub struct DeduperPlan {
+    pub seed: u64,
+    pub n_chunks: u32,
+    /// size of the pool the file's own (not yet stored) chunks are drawn from: small pools repeat chunks
+    pub pool: u32,
+    /// the largest batch handed to one process_chunks call
+    pub batch_max: u32,
+    /// the last model is not known at the start; it arrives through the global-dedup query of the first chunk
+    pub late_shard: bool,
+    /// xorbs cut by the deduper are added to the index it queries (as the session's shard does)
+    pub index_new_xorbs: bool,
 }
 
 // ------------------------------------------------------------------------------------------------
@@ -985,7 +1002,13 @@ fn gen(seed: u64, run: u64, focus: &str, tier: Tier) -> Plan {
     let mut rng = Rng::stream(seed, run, "shard");
     let mode = match focus {
         "C09" => "format",
-        "C05" => "dedup",
+        "C05" => {
+            if rng.chance(1, 4) {
+                "deduper"
+            } else {
+                "dedup"
+            }
+        },
         "C10" => "setops",
         _ => "keyed",
     };
@@ -996,7 +1019,7 @@ fn gen(seed: u64, run: u64, focus: &str, tier: Tier) -> Plan {
             let big = rng.chance(1, if tier == Tier::Quick { 6 } else { 3 });
             specs.push(gen_spec(&mut rng, big));
         },
-        "dedup" => {
+        "dedup" | "deduper" => {
             let n = rng.range(1, 3);
             for _ in 0..n {
                 let big = rng.chance(1, 10);
@@ -1023,7 +1046,23 @@ fn gen(seed: u64, run: u64, focus: &str, tier: Tier) -> Plan {
             }
         },
     }
-    if mode != "format" {
+    let mut dd = None;
+    if mode == "deduper" {
+        for s in specs.iter_mut() {
+            s.n_xorbs = s.n_xorbs.min(12);
+            s.max_chunks = s.max_chunks.min(40);
+            s.n_files = 0;
+        }
+        dd = Some(DeduperPlan {
+            seed: rng.next_u64(),
+            n_chunks: rng.log_range(1, if tier == Tier::Quick { 120 } else { 400 }) as u32,
+            pool: *rng.pick(&[1u32, 2, 3, 5, 8, 30]),
+            batch_max: *rng.pick(&[1u32, 2, 3, 7, 1000]),
+            late_shard: rng.chance(1, 2),
+            index_new_xorbs: rng.chance(1, 2),
+        });
+    }
+    if mode != "format" && mode != "deduper" {
         let n_ops = rng.range(3, if tier == Tier::Quick { 10 } else { 16 }) as usize;
         let ns = specs.len() as u64;
         for _ in 0..n_ops {
@@ -1099,6 +1138,7 @@ fn gen(seed: u64, run: u64, focus: &str, tier: Tier) -> Plan {
         reinsert: if rng.chance(1, 4) { rng.range(1, 3) as u32 } else { 0 },
         ops,
         query_seed: rng.next_u64(),
+        dd,
     }
 }
 
@@ -1316,12 +1356,263 @@ fn run_setops_direct(p: &Plan, models: &[ModelShard], rep: &mut RunReport) {
     }
 }
 
+
+// ------------------------------------------------------------------------------------------------
+// mode "deduper": deduplication::FileDeduper driven directly against a mock data interface
+
+struct DdState {
+    index: MDBInMemoryShard,
+    /// everything an answer may legitimately name: the known models' xorbs and every xorb the deduper cut
+    universe: BTreeMap<H, RefXorbRec>,
+    late: Option<ModelShard>,
+    global_asked: bool,
+    index_new: bool,
+    cut: Vec<H>,
+    answers: u64,
+    bad: Vec<(String, String, String)>,
+}
+
+struct DdIface(Arc<std::sync::Mutex<DdState>>);
+
+#[async_trait::async_trait]
+impl deduplication::DeduplicationDataInterface for DdIface {
+    type ErrorType = String;
+
+    async fn chunk_hash_dedup_query(&self, q: &[MerkleHash]) -> Result<Option<(usize, FileDataSequenceEntry)>, String> {
+        let mut st = self.0.lock().unwrap();
+        let ans = st.index.chunk_hash_dedup_query(q);
+        if let Some(a) = &ans {
+            st.answers += 1;
+            let mut r = RunReport::default();
+            let qh: Vec<H> = q.iter().map(h_of).collect();
+            check_dedup_answer(&mut r, "C05.a", "deduper-index", &st.universe, &qh, a, "index answer to the deduper");
+            for v in r.violations {
+                st.bad.push((v.clause, v.site, v.detail));
+            }
+        }
+        Ok(ans)
+    }
+
+    async fn register_global_dedup_query(&mut self, _h: MerkleHash) -> Result<(), String> {
+        self.0.lock().unwrap().global_asked = true;
+        Ok(())
+    }
+
+    async fn complete_global_dedup_queries(&mut self) -> Result<bool, String> {
+        let mut st = self.0.lock().unwrap();
+        if st.global_asked {
+            if let Some(m) = st.late.take() {
+                for x in m.xorbs.values() {
+                    st.index.add_cas_block(to_cas_info(x)).map_err(|e| e.to_string())?;
+                }
+                return Ok(true);
+            }
+        }
+        Ok(false)
+    }
+
+    async fn register_new_xorb(&mut self, xorb: deduplication::RawXorbData) -> Result<(), String> {
+        let mut st = self.0.lock().unwrap();
+        let rec = from_cas_info(&xorb.cas_info);
+        st.cut.push(rec.hash);
+        st.universe.insert(rec.hash, rec);
+        if st.index_new {
+            st.index.add_cas_block(xorb.cas_info.clone()).map_err(|e| e.to_string())?;
+        }
+        Ok(())
+    }
+}
+
+fn run_deduper(p: &Plan, rep: &mut RunReport) {
+    let Some(dd) = p.dd.clone() else { return };
+    let models = gen_models(&p.specs);
+    let late = if dd.late_shard && models.len() > 1 { models.last().cloned() } else { None };
+    let known: Vec<&ModelShard> = models.iter().take(if late.is_some() { models.len() - 1 } else { models.len() }).collect();
+    let mut index = MDBInMemoryShard::default();
+    let mut universe = BTreeMap::new();
+    for m in &models {
+        for x in m.xorbs.values() {
+            universe.insert(x.hash, x.clone());
+        }
+    }
+    for m in &known {
+        for x in m.xorbs.values() {
+            index.add_cas_block(to_cas_info(x)).unwrap();
+        }
+    }
+    // the file's chunk sequence: runs of stored chunks (also from the late shard), own chunks from a small pool,
+    // repetitions of earlier stretches of the same file
+    let mut rng = Rng::new(dd.seed);
+    let all_x: Vec<&RefXorbRec> = models.iter().flat_map(|m| m.xorbs.values()).filter(|x| !x.chunks.is_empty()).collect();
+    let own = |id: u64| -> (H, u32) {
+        let mut h = [0u8; 32];
+        Rng::new(mix(&[dd.seed, 0x0e11, id])).fill(&mut h);
+        (h, 1 + (mix(&[dd.seed, id]) % 64) as u32)
+    };
+    let mut stream: Vec<(H, u32)> = Vec::new();
+    let n = dd.n_chunks as usize;
+    while stream.len() < n {
+        match rng.weighted(&[if all_x.is_empty() { 0 } else { 8 }, 7, if stream.is_empty() { 0 } else { 5 }]) {
+            0 => {
+                let x = rng.pick(&all_x);
+                let a = rng.usize_below(x.chunks.len());
+                let k = rng.range(1, 6) as usize;
+                for c in x.chunks.iter().skip(a).take(k) {
+                    stream.push((c.0, c.1));
+                }
+            },
+            1 => {
+                for _ in 0..rng.range(1, 3) {
+                    stream.push(own(rng.below(dd.pool as u64)));
+                }
+            },
+            _ => {
+                let j = rng.usize_below(stream.len());
+                let k = rng.range(1, 6) as usize;
+                let copy: Vec<(H, u32)> = stream.iter().skip(j).take(k).cloned().collect();
+                stream.extend(copy);
+            },
+        }
+    }
+    stream.truncate(n);
+    let chunks: Vec<deduplication::Chunk> = stream
+        .iter()
+        .map(|(h, l)| deduplication::Chunk { hash: m_of(h), data: Arc::from(vec![h[0]; *l as usize]) })
+        .collect();
+
+    let st = Arc::new(std::sync::Mutex::new(DdState {
+        index,
+        universe,
+        late,
+        global_asked: false,
+        index_new: dd.index_new_xorbs,
+        cut: Vec::new(),
+        answers: 0,
+        bad: Vec::new(),
+    }));
+    let rt = tokio::runtime::Builder::new_current_thread().build().unwrap();
+    let st2 = st.clone();
+    let res: Result<_, String> = rt.block_on(async {
+        let mut d = deduplication::FileDeduper::new(DdIface(st2));
+        let mut pos = 0usize;
+        let mut brng = Rng::new(dd.seed ^ 0xba7c);
+        let mut batches = 0u64;
+        while pos < chunks.len() {
+            let b = (brng.range(1, dd.batch_max.max(1) as u64) as usize).min(chunks.len() - pos);
+            d.process_chunks(&chunks[pos..pos + b]).await?;
+            pos += b;
+            batches += 1;
+        }
+        let (_file_hash, agg, _metrics, new_xorbs) = d.finalize([0u8; 32], None);
+        Ok((agg, new_xorbs, batches))
+    });
+    let (agg, new_xorbs, batches) = match res {
+        Ok(v) => v,
+        Err(e) => {
+            rep.violate("C05.a", "deduper:error", format!("process_chunks failed: {e}"));
+            return;
+        },
+    };
+    let n_left = agg.num_chunks();
+    let (last_xorb, mut infos) = agg.finalize();
+    let mut g = st.lock().unwrap();
+    if n_left > 0 {
+        let rec = from_cas_info(&last_xorb.cas_info);
+        g.universe.insert(rec.hash, rec);
+    }
+    for (c, s, d) in std::mem::take(&mut g.bad) {
+        rep.violate(&c, &s, d);
+    }
+    let Some(fi) = infos.pop() else {
+        rep.violate("C05.a", "deduper:no-file-record", "finalize returned no file record".into());
+        return;
+    };
+    // every segment of the file record is a dedup answer that was used (from the index, or an in-xorb
+    // self-reference, or new data): the named xorb's chunks at the named positions must be the file's chunks there
+    let mut at = 0usize;
+    let mut self_refs = 0u64;
+    let mut prev_new: Option<(H, u32)> = None;
+    for (si, seg) in fi.segments.iter().enumerate() {
+        let xh = h_of(&seg.cas_hash);
+        let ctx = format!("segment {si} ({}[{}..{}], {} bytes) at file chunk {at}", ref_hex(&xh), seg.chunk_index_start, seg.chunk_index_end, seg.unpacked_segment_bytes);
+        if xh == ZERO_H {
+            rep.violate("C05.a", "deduper:unresolved-self-reference", format!("{ctx}: xorb hash never filled in"));
+            return;
+        }
+        let Some(x) = g.universe.get(&xh) else {
+            rep.violate("C05.a", "deduper:unknown-xorb", format!("{ctx}: xorb neither known nor cut by this file"));
+            return;
+        };
+        let (a, b) = (seg.chunk_index_start as usize, seg.chunk_index_end as usize);
+        if a >= b || b > x.chunks.len() {
+            rep.violate("C05.a", "deduper:range", format!("{ctx}: xorb has {} chunks", x.chunks.len()));
+            return;
+        }
+        if at + (b - a) > stream.len() {
+            rep.violate("C05.a", "deduper:too-many-chunks", format!("{ctx}: file has only {} chunks", stream.len()));
+            return;
+        }
+        let mut bytes = 0u64;
+        for k in 0..(b - a) {
+            if x.chunks[a + k].0 != stream[at + k].0 {
+                rep.violate("C05.a", "deduper:wrong-chunk", format!("{ctx}: position {k}: xorb chunk {} but the file's chunk there is {}", ref_hex(&x.chunks[a + k].0), ref_hex(&stream[at + k].0)));
+                return;
+            }
+            bytes += x.chunks[a + k].1 as u64;
+        }
+        if bytes != seg.unpacked_segment_bytes as u64 {
+            rep.violate("C05.a", "deduper:bytes", format!("{ctx}: chunks sum to {bytes}"));
+        }
+        let own_xorb = g.cut.contains(&xh) || (n_left > 0 && xh == h_of(&last_xorb.hash()));
+        if own_xorb {
+            if let Some((ph, pend)) = prev_new {
+                if !(ph == xh && pend == seg.chunk_index_start) && (ph != xh || seg.chunk_index_start < pend) {
+                    self_refs += 1;
+                }
+            }
+            prev_new = Some((xh, seg.chunk_index_end));
+        }
+        at += b - a;
+    }
+    if at != stream.len() {
+        rep.violate("C05.a", "deduper:chunk-count", format!("file record covers {at} chunks, the file has {}", stream.len()));
+    }
+    let n_cut = g.cut.len() as u64;
+    rep.count("deduper_runs", 1);
+    rep.count("deduper_segments_checked", fi.segments.len() as u64);
+    rep.count("probe:deduper_index_answers", g.answers);
+    rep.count("probe:deduper_xorbs_cut_mid_file", n_cut);
+    rep.count("probe:deduper_backward_self_references", self_refs);
+    rep.count("probe:deduper_late_shard_arrived", (dd.late_shard && g.late.is_none() && models.len() > 1) as u64);
+    let _ = new_xorbs;
+    rep.nontrivial = fi.segments.len() >= 2 && (g.answers > 0 || n_cut > 0);
+    rep.signature = mix(&[dd.seed, p.specs.first().map(|s| s.seed).unwrap_or(0), fi.segments.len() as u64, n_cut, batches]);
+}
+
 impl Engine for ShardEngine {
     fn name(&self) -> &'static str {
         "shard"
     }
     fn properties(&self) -> &'static [&'static str] {
         &["C05", "C09", "C10", "C18"]
+    }
+    fn chunk_env(&self, seed: u64, chunk: u64, focus: &str, _tier: Tier) -> Vec<(String, String)> {
+        // per-process configuration of the file-level deduper (mode "deduper" of C05): small xorb limits make xorb
+        // cuts land inside files and batches; the fragmentation limits decide which dedup answers are used
+        if focus != "C05" || chunk % 4 == 0 {
+            return Vec::new();
+        }
+        let mut rng = Rng::stream(seed, chunk, "shard-config");
+        let mut env = Vec::new();
+        let mut set = |k: &str, v: String| env.push((format!("HF_XET_{k}"), v));
+        set("MAX_XORB_CHUNKS", rng.pick(&[1usize, 2, 3, 4, 6, 9, 17, 8192]).to_string());
+        set("MAX_XORB_BYTES", rng.pick(&[300_000usize, 1 << 20, 64 << 20]).to_string());
+        if rng.chance(2, 3) {
+            set("NRANGES_IN_STREAMING_FRAGMENTATION_ESTIMATOR", rng.pick(&[1usize, 2, 4, 8, 16]).to_string());
+            set("MIN_N_CHUNKS_PER_RANGE", rng.pick(&["1.0", "1.5", "2.0", "4.0", "8.0"]).to_string());
+            set("MIN_N_CHUNKS_PER_RANGE_HYSTERESIS_FACTOR", rng.pick(&["0.25", "0.5", "0.9"]).to_string());
+        }
+        env
     }
     fn budget(&self, focus: &str, tier: Tier) -> Budget {
         match (tier, focus) {
@@ -1339,6 +1630,8 @@ impl Engine for ShardEngine {
         let mut rep = RunReport::default();
         if p.mode == "format" {
             run_format(&p, &mut rep);
+        } else if p.mode == "deduper" {
+            run_deduper(&p, &mut rep);
         } else {
             let models: Vec<ModelShard> = gen_models(&p.specs);
             match p.mode.as_str() {
@@ -1418,13 +1711,13 @@ impl Engine for ShardEngine {
     fn rule(&self, focus: &str) -> String {
         match focus {
             "C09" => "Each run: a seeded model shard (0..700 files, 0..60 xorbs, up to 3000 chunks per xorb, four hash styles incl. <=7 equal truncated prefixes, extreme and densely clustered keys; five flag modes; optional re-insertion of identical records) is built through the real in-memory shard, serialised, parsed by the independent parser, and queried through a seekable reader with seeded short reads, the minimal-shard readers (sync short reads; async short reads + Pending) and the stream walker. Non-trivial: some lookup table has > 256 entries (interpolation phase live) or a truncated-prefix collision group exists. Distinct: (model seed, reader seed, reader mode, table size).".into(),
-            "C05" => "Each run: 1-3 model shards with duplicate chunks across xorbs and colliding truncated prefixes; direct queries against the in-memory index and the on-disk shard (short-read reader), then a seeded directory history (add/flush/plant/consolidate/keyed re-export under several keys/re-open/clock jumps) with manager queries after each step; every answer is checked for truthfulness against the xorbs ever added. Non-trivial: >= 1 hit came from an on-disk shard or the manager and >= 1 query ran past a match end or met a colliding prefix. Distinct: (model seeds, op list hash, hit count).".into(),
+            "C05" => "Each run: 1-3 model shards with duplicate chunks across xorbs and colliding truncated prefixes; direct queries against the in-memory index and the on-disk shard (short-read reader), then a seeded directory history (add/flush/plant/consolidate/keyed re-export under several keys/re-open/clock jumps) with manager queries after each step; every answer is checked for truthfulness against the xorbs ever added. One run in four instead drives deduplication::FileDeduper directly (mode \"deduper\"): a seeded chunk sequence made of runs of stored chunks, own chunks from a small pool and repetitions of earlier stretches is fed in seeded batches against a mock data interface answering from a real in-memory index (a second shard may arrive through the global-dedup query; xorbs the deduper cuts may be added to the index), under per-process xorb limits of 1..17 chunks and sampled fragmentation limits; every index answer and every segment of the final file record (index answers used, in-xorb self-references, new data, across xorb cuts) must name a xorb whose chunks at those positions are the file's chunks there, with the right byte count. Non-trivial: >= 1 hit came from an on-disk shard or the manager and >= 1 query ran past a match end or met a colliding prefix (deduper mode: >= 2 segments and an index answer or a mid-file xorb cut). Distinct: (model seeds, op list hash, hit count).".into(),
             "C10" => "Each run: 2-4 model shards (disjoint / overlapping / identical via shared seeds / empty; same file with different flag sets) -> cursor-level union and difference through short-read readers, plus a seeded directory history with consolidation under thresholds from 'merge nothing' to 'merge all' and simulated mtimes (ordered, tied, reversed). Non-trivial: >= 1 record occurred in both inputs of a union, or a consolidation merged shards. Distinct: (model seeds, op list hash, consolidation count).".into(),
             _ => "Each run: shards re-exported under 4 keys (incl. the zero key) with all 8 include-flag combinations into one directory while a simulated clock is advanced across creation/expiry/grace boundaries; exported bytes are checked by the independent parser (every chunk hash and table key keyed, no raw chunk hash, xorb/file hashes kept, sections present iff requested, timestamps), manager answers for unkeyed queries are checked for truthfulness, expired shards must not load and may be deleted only after expiry+grace. Non-trivial: >= 1 keyed export was checked and >= 1 manager query hit. Distinct: (model seeds, op list hash, export count).".into(),
         }
     }
     fn real_vs_stub(&self) -> Value {
-        json!({"real": ["mdb_shard::{MDBInMemoryShard, MDBShardInfo (serialize_from, lookups, interpolation search, keyed export), set_operations, session_directory::consolidate_shards_in_directory, MDBShardFile, ShardFileManager, streaming_shard}"], "simulated": ["reader delivery (short reads, Pending)", "wall clock and file mtimes (H6)", "another process planting shard files"], "reference": ["ref_shard_parse, ref_hmac, model shards"]})
+        json!({"real": ["deduplication::{FileDeduper, DataAggregator, RawXorbData} (C05 deduper mode; its DeduplicationDataInterface is a mock answering from a real MDBInMemoryShard)", "mdb_shard::{MDBInMemoryShard, MDBShardInfo (serialize_from, lookups, interpolation search, keyed export), set_operations, session_directory::consolidate_shards_in_directory, MDBShardFile, ShardFileManager, streaming_shard}"], "simulated": ["reader delivery (short reads, Pending)", "wall clock and file mtimes (H6)", "another process planting shard files"], "reference": ["ref_shard_parse, ref_hmac, model shards"]})
     }
     fn assumptions(&self, _focus: &str) -> Vec<String> {
         vec!["Inputs are seeded generation; the simulated dimensions are reader delivery, the clock, mtimes and the directory history (DESIGN §7).".into()]
